@@ -26,6 +26,7 @@ func runC07(c *Ctx) {
 	c.ruleWrapperAccounting("R07.2")
 	c.ruleOwnResponse("R07.3")
 	c.ruleIdentityImmutable("R07.4")
+	c.ruleNoSharedCaptures("R07.5")
 }
 
 // publicWorkerCtors: exported functions of package varmq whose first parameter is a function (the user's worker function).
@@ -186,6 +187,44 @@ func (c *Ctx) ruleRecoverWrapper(rule string) {
 		})
 		c.Rep.check(named != nil && recovers, rule, ws.Short(), "WithSafe does not turn a panic into its error result", c.P.pos(ws.Body), "named error result assigned from recover() in a deferred literal",
 			"WithSafe must have a named error result that a deferred function assigns when recover() returns non-nil; otherwise a panic propagates or is swallowed as success")
+		// ... on EVERY path of the recovered branch (a type switch without default, an early return, would
+		// turn some panics into a nil error: the job is then counted as successful)
+		for _, lit := range c.P.Funcs {
+			if lit.Parent != ws || lit.Lit == nil || named == nil {
+				continue
+			}
+			linfo := lit.Info()
+			sr := &seqRule{c: c, rule: rule}
+			sr.classify = func(fr *Frame, call *ast.CallExpr, ce *Callee, args []Value) *callEvent {
+				if ce.Builtin == "recover" {
+					return &callEvent{Name: "recover", Atomic: true, Results: tok("recovered")}
+				}
+				return nil
+			}
+			sr.condSym = func(fr *Frame, token, rel string) string { return token + "=" + rel }
+			sr.visit = func(fr *Frame, n ast.Node) string {
+				if as, ok := n.(*ast.AssignStmt); ok {
+					for i, l := range as.Lhs {
+						if id, ok := l.(*ast.Ident); ok && linfo.ObjectOf(id) == named && i < len(as.Rhs) && !isNilExpr(linfo, as.Rhs[i]) {
+							return "set-result"
+						}
+					}
+				}
+				return ""
+			}
+			n := 0
+			for _, sg := range sr.segments(lit) {
+				if sg.Kind != "path" || !sg.has("recover") {
+					continue
+				}
+				if sg.has("recovered=nonnil") {
+					n++
+					c.Rep.check(sg.has("set-result"), rule, ws.Short(), "a recovered panic leaves the error result nil on some path", sg.End, "recovered panic ⇒ error result assigned on this path",
+						"a path of WithSafe's deferred function recovers a panic (non-nil value) and does not assign the error result: that panic is reported as success ["+strings.Join(sg.Syms, " ")+"]")
+				}
+			}
+			_ = n
+		}
 		// fn called exactly once, not inside the deferred literal
 		var fnParam types.Object
 		for _, fld := range ws.Type.Params.List {
@@ -478,6 +517,23 @@ func (c *Ctx) ruleIdentityImmutable(rule string) {
 		}
 	} else {
 		c.Rep.undecided(rule, "loadJobConfigs", "missing", "", "loadJobConfigs not found")
+	}
+	// job configs are built only by loadJobConfigs (generator, then options) and by the decoder
+	parseF := c.P.FuncByKey("parseToJob")
+	loadF := c.P.FuncByKey("loadJobConfigs")
+	for _, f := range c.P.pkgFuncs(modPath) {
+		if f.Body == nil {
+			continue
+		}
+		ast.Inspect(f.Body, func(x ast.Node) bool {
+			cl, ok := x.(*ast.CompositeLit)
+			if !ok || qualTypeName(f.Info().TypeOf(cl)) != modPath+".jobConfigs" {
+				return true
+			}
+			c.Rep.check(f == loadF || f == parseF, rule, f.Short(), "job configs built outside loadJobConfigs", c.P.pos(cl), "jobConfigs literal in loadJobConfigs / the decoder",
+				"a jobConfigs value is built by hand in "+f.Short()+": the worker's id generator (and the WithJobId rule) are bypassed, so jobs without an explicit id lose the generated one")
+			return true
+		})
 	}
 	// WithJobId: assignment behind id != ""
 	if f := c.P.FuncByKey("WithJobId"); f != nil {
